@@ -92,9 +92,19 @@ class World:
         self.hostmap = peers.HostMap({"alpha.test": "127.0.0.1"})
         self.hostmap.__enter__()
 
+    @staticmethod
+    def path(n):
+        """Node paths carry characters that are legal in a URL and mean nothing special in a redirect target:
+        ';' and ',' and '=' (path parameters), '!', '~', a percent-escape."""
+        return (f"/n{n}", f"/n{n};v={n}", f"/n{n},a=b;c", f"/n{n}!~%41")[n % 4]
+
+    @staticmethod
+    def query(n):
+        return ("", "", "?a=1;b=2", "")[(n // 2) % 4]
+
     def url(self, node):
         s, n = node
-        return f"gemini://{self.hosts[s]}:{self.servers[s].port}/n{n}"
+        return f"gemini://{self.hosts[s]}:{self.servers[s].port}{self.path(n)}{self.query(n)}"
 
     def log_marks(self):
         return [len(s.log) for s in self.servers]
@@ -161,11 +171,11 @@ def run_graph(ctx, world, nodes, edges, start, max_redirects, follow, label):
         e = edges[node]
         if e[0] == "final":
             st = e[1]
-            world.table[(node[0], f"/n{node[1]}")] = (f"{st} text/gemini\r\nfinal at n{node[1]}\n" if st == 20 else f"{st} final-meta-n{node[1]}\r\n").encode()
+            world.table[(node[0], world.path(node[1]))] = (f"{st} text/gemini\r\nfinal at n{node[1]}\n" if st == 20 else f"{st} final-meta-n{node[1]}\r\n").encode()
         elif e[0] == "node":
-            world.table[(node[0], f"/n{node[1]}")] = f"{e[2]} {respell(world.url(e[1]), e[3] if len(e) > 3 else 'canon')}\r\n".encode()
+            world.table[(node[0], world.path(node[1]))] = f"{e[2]} {respell(world.url(e[1]), e[3] if len(e) > 3 else 'canon')}\r\n".encode()
         else:
-            world.table[(node[0], f"/n{node[1]}")] = f"{e[2]} {special_target(world, e[1], node)}\r\n".encode()
+            world.table[(node[0], world.path(node[1]))] = f"{e[2]} {special_target(world, e[1], node)}\r\n".encode()
     # ---- model walk
     exp_conns = 0
     cur = start
@@ -279,7 +289,7 @@ def run_graph(ctx, world, nodes, edges, start, max_redirects, follow, label):
             ctx.violation(f"redirect-returned-as-final:{kind}" + sfx, f"{kind} chain ended with a response {res[1]} {str(res[2])[:40]!r} instead of an error", wit)
     elif kind == "redirect-returned":
         st = exp[2]
-        if res[0] != "response" or res[1] != st or res[2] != world.table[(exp[1][0], f"/n{exp[1][1]}")].decode().split(" ", 1)[1].rstrip("\r\n"):
+        if res[0] != "response" or res[1] != st or res[2] != world.table[(exp[1][0], world.path(exp[1][1]))].decode().split(" ", 1)[1].rstrip("\r\n"):
             ctx.violation("disabled-altered" + sfx, "with following disabled the 3x response was not returned unchanged", wit)
     else:  # special target: error or unchanged 3x; no connection beyond the node that produced it (checked by count below)
         if len(conns) > exp_conns:
